@@ -133,10 +133,16 @@ fn run_search(rt: &tokio::runtime::Runtime, inp: &Value) -> Value {
         let mut conf = ResolvConf::new();
         conf.options.ndots = ndots;
         conf.options.timeout = Duration::from_millis(tmo * TICK_MS);
+        let toolong: Vec<i64> = inp
+            .get("toolong")
+            .and_then(|x| x.as_array())
+            .map(|a| a.iter().map(|x| x.as_i64().unwrap()).collect())
+            .unwrap_or_default();
         for k in &search {
+            let sfx = if toolong.contains(k) { suffix_str_long(*k) } else { suffix_str(*k) };
             conf.options
                 .search
-                .push(domain::resolv::stub::conf::SearchSuffix::from_str(&suffix_str(*k)).unwrap());
+                .push(domain::resolv::stub::conf::SearchSuffix::from_str(&sfx).unwrap());
         }
         let log = Log::default();
         let t0 = tokio::time::Instant::now();
@@ -163,11 +169,14 @@ fn run_search(rt: &tokio::runtime::Runtime, inp: &Value) -> Value {
         } else {
             resolver.search_host(rel_name(dots)).await
         };
-        let qs: Vec<Value> = log
+        let mut qs: Vec<Value> = log
             .take()
             .iter()
             .map(|e| json!([cand_of(e["qname"].as_str().unwrap(), dots), e["qtype"]]))
             .collect();
+        // lookup_host asks its two questions concurrently; the specification
+        // serialises them (A, then AAAA): normalise every pair
+        normalise_pairs(&mut qs);
         let r = match &res {
             Ok(found) => {
                 let qn = format!("{}", found.qname());
@@ -177,6 +186,18 @@ fn run_search(rt: &tokio::runtime::Runtime, inp: &Value) -> Value {
         };
         json!({"qs": qs, "res": r})
     })
+}
+
+/// Every lookup is a pair of concurrent questions (one server, no second
+/// round): put the A question first.
+fn normalise_pairs(qs: &mut [Value]) {
+    let mut i = 0;
+    while i + 1 < qs.len() {
+        if qs[i][0] == qs[i + 1][0] && qs[i][1] == json!("AAAA") && qs[i + 1][1] == json!("A") {
+            qs.swap(i, i + 1);
+        }
+        i += 2;
+    }
 }
 
 //------------ family sock ------------------------------------------------------
